@@ -98,9 +98,19 @@ type c19Case struct {
 	Missing  []string          `json:"missing,omitempty"`
 	ProvOK   bool              `json:"prov_ok,omitempty"`
 	Note     string            `json:"note,omitempty"`
+	// manager with several remote dependencies in one chart, in this order (chart a 1.0.0, b 2.0.0
+	// or c 3.0.0 from the repository with that URL); empty = the single dependency a from DepRepo
+	Deps []c19Dep `json:"deps,omitempty"`
 	// kind "urls": strings handed to url.Parse (differential check of the Gallina splitter)
 	URLs []string `json:"urls,omitempty"`
 }
+
+type c19Dep struct {
+	Chart string `json:"chart"`
+	Repo  string `json:"repo"`
+}
+
+var c19ChartVersion = map[string]string{"a": "1.0.0", "b": "2.0.0", "c": "3.0.0"}
 
 type c19Req struct {
 	Scheme string `json:"scheme"`
@@ -139,6 +149,7 @@ type c19Obs struct {
 	Failed   bool              `json:"failed"`
 	Panic    string            `json:"panic,omitempty"`
 	FirstOK  bool              `json:"first_ok"`
+	DepOK    []bool            `json:"dep_ok,omitempty"` // per dependency: its archive request was answered 200
 	Parse    map[string]c19URL `json:"-"`
 	Equal    [][2]string       `json:"-"`
 	Tab      map[string]string `json:"-"`
@@ -165,6 +176,7 @@ type c19Env struct {
 	index         map[string][]byte // host+path -> index.yaml body
 	root          string
 	tgz           []byte
+	tgzOf         map[string][]byte // file name -> archive of that chart
 	settings      *cli.EnvSettings
 }
 
@@ -217,6 +229,14 @@ func c19GetEnv() *c19Env {
 			panic(err)
 		}
 		e.tgz, _ = os.ReadFile(f)
+		e.tgzOf = map[string][]byte{}
+		for n, v := range c19ChartVersion {
+			f2, err := chartutil.Save(&chart.Chart{Metadata: &chart.Metadata{APIVersion: "v2", Name: n, Version: v}}, cdir)
+			if err != nil {
+				panic(err)
+			}
+			e.tgzOf[n+"-"+v+".tgz"], _ = os.ReadFile(f2)
+		}
 		e.settings = cli.New()
 		c19E = e
 	})
@@ -250,6 +270,9 @@ func (e *c19Env) serve(w http.ResponseWriter, r *http.Request) {
 		}
 	case strings.HasSuffix(r.URL.Path, ".tgz"):
 		status, body = 200, e.tgz
+		if b, ok := e.tgzOf[r.URL.Path[strings.LastIndex(r.URL.Path, "/")+1:]]; ok {
+			body = b
+		}
 	case strings.HasSuffix(r.URL.Path, ".prov"):
 		if cur.ProvOK {
 			status, body = 200, []byte("-----BEGIN PGP SIGNED MESSAGE-----\nHash: SHA512\n\nnot a real provenance file\n")
@@ -285,6 +308,7 @@ func c19IndexYAML(urls []string) []byte {
 	doc := map[string]any{"apiVersion": "v1", "entries": map[string]any{
 		"a": []ent{{APIVersion: "v2", Name: "a", Version: "1.0.0", URLs: urls}},
 		"b": []ent{{APIVersion: "v2", Name: "b", Version: "2.0.0", URLs: []string{"b-2.0.0.tgz"}}},
+		"c": []ent{{APIVersion: "v2", Name: "c", Version: "3.0.0", URLs: []string{"c-3.0.0.tgz"}}},
 	}}
 	b, _ := yaml.Marshal(doc)
 	return b
@@ -542,6 +566,48 @@ func c19GenURL(r *rand.Rand) string {
 	return s
 }
 
+// a chart with two or three remote dependencies, each from another repository: with credentials,
+// without, with pass-credentials, on the same host under another port, on another host - in a
+// random order (the options of one dependency must not depend on the dependencies before it)
+func c19GenMultiDeps(r *rand.Rand) c19Case {
+	c := c19Case{Kind: "manager", SkipUpdate: r.Intn(3) > 0, ProvOK: r.Intn(2) == 0, Verify: []int{0, 0, 3}[r.Intn(3)], Redirect: map[string]string{}}
+	scheme := []string{"http", "https"}[r.Intn(2)]
+	host := c19Hosts[r.Intn(3)]
+	palette := []c19Repo{
+		{Name: "private", URL: scheme + "://" + host + "/charts", User: "user-private", Pass: fmt.Sprintf("pw-private-%d", r.Intn(1000))},
+		{Name: "public", URL: scheme + "://public.example/charts"},
+		{Name: "passall", URL: scheme + "://all.example/charts", User: "user-all", Pass: fmt.Sprintf("pw-all-%d", r.Intn(1000)), PassAll: true},
+		{Name: "otherport", URL: scheme + "://" + host + ":8080/charts"},
+		{Name: "otherscheme", URL: c19FlipScheme(scheme) + "://" + host + "/charts"},
+		{Name: "second", URL: scheme + "://second." + host + "/charts", User: "user-second", Pass: fmt.Sprintf("pw-second-%d", r.Intn(1000)), Insecure: r.Intn(2) == 0},
+	}
+	r.Shuffle(len(palette), func(a, b int) { palette[a], palette[b] = palette[b], palette[a] })
+	n := 2 + r.Intn(2)
+	c.Repos = append(c.Repos, palette[:n]...)
+	if r.Intn(4) == 0 {
+		c.Repos = append(c.Repos, palette[n]) // a configured repository no dependency uses
+	}
+	for k := range c.Repos {
+		ref := "a-1.0.0.tgz"
+		if r.Intn(4) == 0 {
+			_, ref = c19ChartRef(r, scheme, host, "/charts")
+		}
+		c.Repos[k].URLs = []string{ref}
+	}
+	charts := []string{"a", "b", "c"}
+	r.Shuffle(len(charts), func(a, b int) { charts[a], charts[b] = charts[b], charts[a] })
+	order := r.Perm(n)
+	for i, k := range order {
+		repoURL := c.Repos[k].URL
+		if r.Intn(5) == 0 {
+			repoURL += "/"
+		}
+		c.Deps = append(c.Deps, c19Dep{Chart: charts[i], Repo: repoURL})
+	}
+	c.Build = r.Intn(4) == 0
+	return c
+}
+
 func c19SplitOf(s string) c19Split {
 	out := c19Split{S: s}
 	u, err := url.Parse(s)
@@ -560,11 +626,14 @@ func c19SplitOf(s string) c19Split {
 }
 
 func (*c19) Generate(r *rand.Rand, i int) any {
-	kinds := []string{"getter", "getter", "getter", "download", "download", "locate", "locate", "pull", "manager", "manager", "index", "urls"}
+	kinds := []string{"getter", "getter", "getter", "download", "download", "locate", "locate", "pull", "manager", "manager", "mdeps", "index", "urls"}
 	return c19Normalize(c19Gen(r, kinds[r.Intn(len(kinds))]))
 }
 
 func c19Gen(r *rand.Rand, kind string) c19Case {
+	if kind == "mdeps" {
+		return c19GenMultiDeps(r)
+	}
 	if kind == "urls" {
 		c := c19Case{Kind: kind}
 		for k := 0; k < 40; k++ {
@@ -931,6 +1000,23 @@ func (*c19) Corpus() []any {
 			{Name: "public", URL: "https://public.example/charts", URLs: []string{"https://public.example/charts/a-1.0.0.tgz"}},
 			{Name: "private", URL: "https://private.corp.test/charts", User: "user-private", Pass: "pw-private", URLs: []string{"https://public.example/charts/a-1.0.0.tgz"}}},
 			Note: "manager-build-foreign-owner"},
+		// several remote dependencies in one chart: the options of each download are built afresh from
+		// that dependency's repository - the pair of an earlier private repository must not reach a
+		// later public one (seeded change C19-10), in either order, with two and three dependencies
+		c19Case{Kind: "manager", SkipUpdate: true, Verify: 3, ProvOK: true, Deps: []c19Dep{{"a", "https://private.corp.test/charts"}, {"b", "https://public.example/charts"}}, Repos: []c19Repo{
+			{Name: "private", URL: "https://private.corp.test/charts", User: "user-private", Pass: "pw-private", URLs: []string{"a-1.0.0.tgz"}},
+			{Name: "public", URL: "https://public.example/charts", URLs: []string{"a-1.0.0.tgz"}}}, Note: "deps-private-then-public"},
+		c19Case{Kind: "manager", SkipUpdate: true, Verify: 3, ProvOK: true, Deps: []c19Dep{{"b", "https://public.example/charts"}, {"a", "https://private.corp.test/charts"}}, Repos: []c19Repo{
+			{Name: "private", URL: "https://private.corp.test/charts", User: "user-private", Pass: "pw-private", URLs: []string{"a-1.0.0.tgz"}},
+			{Name: "public", URL: "https://public.example/charts", URLs: []string{"a-1.0.0.tgz"}}}, Note: "deps-public-then-private"},
+		c19Case{Kind: "manager", SkipUpdate: true, Deps: []c19Dep{{"c", "https://private.corp.test/charts"}, {"a", "https://private.corp.test:8443/charts"}, {"b", "https://all.example/charts"}}, Repos: []c19Repo{
+			{Name: "sameport", URL: "https://private.corp.test:8443/charts", URLs: []string{"a-1.0.0.tgz"}},
+			{Name: "private", URL: "https://private.corp.test/charts", User: "user-private", Pass: "pw-private", URLs: []string{"a-1.0.0.tgz"}},
+			{Name: "passall", URL: "https://all.example/charts", User: "user-all", Pass: "pw-all", PassAll: true, URLs: []string{"https://cdn.other.test/a-1.0.0.tgz"}}}, Note: "deps-three"},
+		c19Case{Kind: "manager", Build: true, SkipUpdate: true, Deps: []c19Dep{{"a", "https://all.example/charts"}, {"b", "http://public.example/charts"}, {"c", "https://private.corp.test/charts"}}, Repos: []c19Repo{
+			{Name: "public", URL: "http://public.example/charts", URLs: []string{"a-1.0.0.tgz"}},
+			{Name: "private", URL: "https://private.corp.test/charts", User: "user-private", Pass: "pw-private", URLs: []string{"a-1.0.0.tgz"}},
+			{Name: "passall", URL: "https://all.example/charts", User: "user-all", Pass: "pw-all", PassAll: true, URLs: []string{"https://cdn.other.test/a-1.0.0.tgz"}}}, Note: "deps-three-build (pass-all first)"},
 		// the same with insecure_skip_tls_verify on the private entry (the flag next to pass-credentials)
 		c19Case{Kind: "manager", DepRepo: "https://private.corp.test/charts", SkipUpdate: true, Repos: []c19Repo{
 			{Name: "public", URL: "https://public.example/charts", URLs: []string{"https://public.example/charts/a-1.0.0.tgz"}},
@@ -1116,6 +1202,12 @@ func (p *c19) Execute(ci any) (res any) {
 			os.MkdirAll(cdir, 0o755)
 			md := &chart.Metadata{APIVersion: "v2", Name: "parent", Version: "0.1.0",
 				Dependencies: []*chart.Dependency{{Name: "a", Version: "1.0.0", Repository: c.DepRepo}}}
+			if len(c.Deps) > 0 {
+				md.Dependencies = nil
+				for _, d := range c.Deps {
+					md.Dependencies = append(md.Dependencies, &chart.Dependency{Name: d.Chart, Version: c19ChartVersion[d.Chart], Repository: d.Repo})
+				}
+			}
 			b, _ := yaml.Marshal(md)
 			os.WriteFile(filepath.Join(cdir, "Chart.yaml"), b, 0o644)
 			m := &downloader.Manager{Out: io.Discard, ChartPath: cdir, Getters: getter.All(settings), RepositoryConfig: rcfg,
@@ -1144,6 +1236,15 @@ func (p *c19) Execute(ci any) (res any) {
 		if strings.HasSuffix(rq.Path, ".tgz") && rq.Status == 200 {
 			obs.FirstOK = true
 		}
+	}
+	for _, d := range c.Deps {
+		ok := false
+		for _, rq := range obs.Reqs {
+			if strings.HasSuffix(rq.Path, "/"+d.Chart+"-"+c19ChartVersion[d.Chart]+".tgz") && rq.Status == 200 {
+				ok = true
+			}
+		}
+		obs.DepOK = append(obs.DepOK, ok)
 	}
 	c19Tables(&c, &obs)
 	return obs
@@ -1216,13 +1317,30 @@ func c19Tables(c *c19Case, obs *c19Obs) {
 			if abs, err := repo.ResolveReferenceURL(rp.URL, rp.URLs[0]); err == nil {
 				obs.Tab["lookup:"+rp.Name+"|a|"] = abs
 			}
-			if n, err := downloader.VerifNormalizeURL(c19DepRepoURL(c), rp.URLs[0]); err == nil && c.Kind == "manager" {
+			if n, err := downloader.VerifNormalizeURL(c19DepRepoURL(c), rp.URLs[0]); err == nil && c.Kind == "manager" && len(c.Deps) == 0 {
 				obs.Tab["dep:"+rp.Name+"|a|1.0.0"] = n
 				add(n)
 			}
 		}
 	}
 	add(c19DepRepoURL(c))
+	for _, d := range c.Deps {
+		add(d.Repo)
+		for _, rp := range c.Repos {
+			urls := []string{d.Chart + "-" + c19ChartVersion[d.Chart] + ".tgz"}
+			if d.Chart == "a" {
+				urls = rp.URLs
+			}
+			if len(urls) == 0 {
+				continue
+			}
+			add(urls[0])
+			if n, err := downloader.VerifNormalizeURL(d.Repo, urls[0]); err == nil {
+				obs.Tab["dep:"+rp.Name+"|"+d.Chart+"|"+c19ChartVersion[d.Chart]] = n
+				add(n)
+			}
+		}
+	}
 	for _, ad := range []string{c.RepoURL, c.DepRepo} {
 		if ad == "" || strings.HasPrefix(ad, "@") {
 			continue
@@ -1262,7 +1380,11 @@ func c19Tables(c *c19Case, obs *c19Obs) {
 	// urlutil.Equal is asked only with a chart reference / dependency repository on the left
 	var lefts []string
 	for _, a := range keys {
-		if a != "" && (a == c.Ref || a == c19DepRepoURL(c) || strings.HasSuffix(a, ".tgz")) {
+		isDep := false
+		for _, d := range c.Deps {
+			isDep = isDep || a == d.Repo
+		}
+		if a != "" && (a == c.Ref || a == c19DepRepoURL(c) || isDep || strings.HasSuffix(a, ".tgz")) {
 			lefts = append(lefts, a)
 		}
 	}
@@ -1546,7 +1668,7 @@ func c19CoqOpts(os []c19Opt, src string) string {
 }
 
 func c19CoqEntry(rp c19Repo) string {
-	return fmt.Sprintf("(mkEntry %s %s %s %s %s [(%s, %s, %s); (\"b\", \"2.0.0\", [\"b-2.0.0.tgz\"])])", hx.CoqStr(rp.Name), hx.CoqStr(rp.URL),
+	return fmt.Sprintf("(mkEntry %s %s %s %s %s [(%s, %s, %s); (\"b\", \"2.0.0\", [\"b-2.0.0.tgz\"]); (\"c\", \"3.0.0\", [\"c-3.0.0.tgz\"])])", hx.CoqStr(rp.Name), hx.CoqStr(rp.URL),
 		hx.CoqStr(rp.User), hx.CoqStr(rp.Pass), hx.CoqBool(rp.PassAll), hx.CoqStr("a"), hx.CoqStr("1.0.0"), hx.CoqStrList(rp.URLs))
 }
 
@@ -1606,6 +1728,14 @@ func (*c19) CoqCase(ci, oi any) string {
 	case "pull":
 		path = fmt.Sprintf("PPull %s %s %s %s", cpo, hx.CoqStr(c.Ref), hx.CoqBool(c.Verify > 0), hx.CoqBool(obs.FirstOK))
 	case "manager":
+		if len(c.Deps) > 0 {
+			var ds []string
+			for i, d := range c.Deps {
+				ds = append(ds, fmt.Sprintf("(%s, %s, %s, %s)", hx.CoqStr(d.Repo), hx.CoqStr(d.Chart), hx.CoqStr(c19ChartVersion[d.Chart]), hx.CoqBool(i < len(obs.DepOK) && obs.DepOK[i])))
+			}
+			path = fmt.Sprintf("PManagerAll %s %s", hx.CoqList(ds), hx.CoqBool(c.Verify > 0))
+			break
+		}
 		dr := c19DepRepoURL(&c)
 		path = fmt.Sprintf("PManager %s \"a\" \"1.0.0\" %s %s", hx.CoqStr(dr), hx.CoqBool(c.Verify > 0), hx.CoqBool(obs.FirstOK))
 	}
@@ -1655,6 +1785,9 @@ func (*c19) Class(ci, oi any) string {
 		sent = "no-request"
 	}
 	kind := c.Kind
+	if len(c.Deps) > 0 {
+		kind += fmt.Sprintf("-%ddeps", len(c.Deps))
+	}
 	if c.Build {
 		kind += "-build"
 	}
